@@ -10,4 +10,4 @@ Extraction "compilemodel.ml"
   fd_name fd_params fd_ret fd_body fd_catches fd_catch_all
   N_of_opcode opcode_of_N
   wrap32 run_program int_shaped
-  compile_program exc_table code_entry main_addr prog_in_F run_vm run_vm_peak.
+  compile_program exc_table code_entry main_addr prog_in_F prog_in_P run_vm run_vm_peak.
